@@ -86,6 +86,7 @@ def install(R):
           requires=[("spelling", "cases is None or is_dict(cases) or is_seq(cases)"), ("fn_args", "fn_args is None or is_seq(fn_args)")],
           ensures=[
               ("nothing", "implies(not truthy(cases), slen(result) == 0)"),
+              ("sequence", "is_seq(result)"),
               ("single_dict", "implies(truthy(cases) and is_dict(cases), slen(result) == 1 and sget(result, 0) == cases)"),
               ("dicts", "implies(truthy(cases) and not is_dict(cases) and isinstance(sget(cases, 0), dict), slen(result) == slen(cases) and "
                         "forall(lambda k: implies(0 <= k and k < slen(cases), sget(result, k) == sget(cases, k))))"),
